@@ -1363,6 +1363,13 @@ class Interp:
                 ev_name = rname if (c.resolved and c.ikind != "virtual") else name
                 snap = [self.snapshot(st, a) for a in args]
                 res = ("call", ev_name, site, tuple(tform(a) for a in snap))
+                if c.ikind == "virtual" or target is not None:
+                    # a call into state the analysis does not see (a trait object, an in-crate function kept opaque): a
+                    # second invocation from the same site with the same arguments (the enclosing helper was entered
+                    # twice) need not return what the first did — its result is a distinct unknown
+                    n_prev = sum(1 for e_ in st.events if e_.kind == "call" and e_.result is not None and e_.result[:2] == res[:2] and e_.result[3:] == res[3:] and tuple(e_.result[2][:len(site)]) == tuple(site))
+                    if n_prev:
+                        res = ("call", ev_name, tuple(site) + ("again%d" % n_prev,), res[3])
                 st.events.append(Event("call", ev_name, snap, site, t.span, tuple(self.ctx), res, c, extra={"raw_args": args}))
                 results = [(st, res)]
                 # an external callee may invoke the closures it is given: explore them (effects only)
